@@ -240,6 +240,15 @@ def k_missing(ctx, when):
             ctx.check("count.missing_file", (not ok) and isinstance(res, FileNotFoundError), "missing_file_not_reported", name, case, observed=repr(res))
         p.create_new()
         ctx.check("count.missing_file", next(p) == 0 and next(p) == 1, "create_new_does_not_restart_at_zero", "", case)
+        # the same call as an explicit restart in mid-sequence, and as the way out of unreadable content: the file holds 0 afterwards
+        p.create_new()
+        ok, v = attempt(lambda: (path.read_text(), next(p), next(p)))
+        ctx.check("count.missing_file", ok and v[0].strip() == "0" and v[1:] == (0, 1), "create_new_on_existing_file_does_not_restart_at_zero", "mid_sequence", case, observed=repr(v))
+        path.write_text("garbage\n")
+        ok0, e0 = attempt(lambda: next(p))
+        p.create_new()
+        ok, v = attempt(lambda: (next(p), next(p)))
+        ctx.check("count.missing_file", (not ok0) and isinstance(e0, ValueError) and ok and v == (0, 1), "create_new_on_existing_file_does_not_restart_at_zero", "after_unreadable_content", case, observed=repr(v))
     finally:
         shutil.rmtree(d, ignore_errors=True)
 
